@@ -2,7 +2,9 @@
 
 Oracle: an interpreter over a model dict of the 7 settings: entering a context snapshots the *named* keys and sets
 them; leaving (normally or by exception) restores exactly those; direct assignments to unnamed keys persist.
-Programs are generated recursively: with / assign / raise / try / observe.
+Programs are generated recursively: with / assign / raise / try / observe; a context is left normally, by an
+Exception, by a BaseException that is not an Exception, or by GeneratorExit; a context object is entered by `with` or
+used as a function decorator whose calls nest (the same object entered while it is entered).
 """
 
 from __future__ import annotations
@@ -16,6 +18,7 @@ from hypothesis import strategies as st
 import fuzzylite as fl
 
 RULE = ("cases are programs over settings contexts (with{subset->values} body | assign | raise | try body | observe), "
+        "raise = Exception | BaseException subclass | GeneratorExit; with = with-statement | decorator re-entered 0-2 times; "
         "nesting depth <= 4; non-trivial when nesting depth >= 2 or an exception crosses a context boundary; distinct by "
         "program. The depth-2 single-setting sub-space (7x7 setting pairs x {normal, exception in the inner body, "
         "exception between the two exits}) is enumerated completely")
@@ -41,6 +44,15 @@ FT = {"f64": np.float64, "f32": np.float32, "f16": np.float16}
 
 class Boom(Exception):
     pass
+
+
+class BoomBase(BaseException):
+    """An exit that is not an `Exception` (the class of KeyboardInterrupt, SystemExit, asyncio.CancelledError, the
+    outcome exceptions of test runners); a context is "left by an exception" through these just as well."""
+
+
+BOOMS = (Boom, BoomBase, GeneratorExit)
+RAISE = {"exception": Boom, "base": BoomBase, "generator-exit": GeneratorExit}
 
 
 class World:
@@ -125,11 +137,11 @@ def check_program(ctx, case) -> None:
                 setattr(S, s[1], val)
                 model[s[1]] = val
             elif s[0] == "raise":
-                raise Boom(here)
+                raise RAISE[s[1] if len(s) > 1 else "exception"](here)
             elif s[0] == "try":
                 try:
                     run(s[1], here)
-                except Boom:
+                except BOOMS:
                     pass
                 compare(here + ":after-try")
             elif s[0] == "with":
@@ -139,23 +151,59 @@ def check_program(ctx, case) -> None:
                     val = w.value(a[1], a[2])
                     setattr(S, a[1], val)
                     model[a[1]] = val
-                snapshot = {k: model[k] for k in named}  # "previous value" = the value when the context is entered
-                try:
-                    with cm:
+                how = s[4] if len(s) > 4 else {"how": "with"}
+                if how["how"] == "with":
+                    snapshot = {k: model[k] for k in named}  # "previous value" = the value when the context is entered
+                    try:
+                        with cm:
+                            model.update(named)
+                            compare(here + ":entered")
+                            try:
+                                run(s[2], here)
+                            except BOOMS:
+                                crossed[0] = True
+                                raise
+                    finally:
+                        model.update(snapshot)
+                        compare(here + ":exited")
+                else:
+                    # the context object used as a function decorator (it comes from contextlib.contextmanager, which
+                    # documents this use and re-creates the context for every call); the decorated function calls
+                    # itself `depth` times before running the body, so the same object is entered while it is entered:
+                    # each call is a context of its own, with the values held at *that* entry as its previous values
+                    ctx.cls("decorator")
+
+                    def inner(depth, s=s, here=here, named=named):
                         model.update(named)
-                        compare(here + ":entered")
+                        compare(here + f":entered@{depth}")
                         try:
-                            run(s[2], here)
-                        except Boom:
+                            if depth > 0:
+                                call(depth - 1)
+                            else:
+                                run(s[2], here)
+                        except BOOMS:
                             crossed[0] = True
                             raise
-                finally:
-                    model.update(snapshot)
-                    compare(here + ":exited")
+
+                    decorated = cm(inner)
+
+                    def call(depth, named=named, here=here):
+                        snapshot = {k: model[k] for k in named}
+                        try:
+                            decorated(depth)
+                        finally:
+                            model.update(snapshot)
+                            compare(here + f":exited@{depth}")
+
+                    if how["depth"] > 0:
+                        ctx.cls("decorator_reentered")
+                    call(how["depth"])
+                    if how.get("again"):  # a later, separate call of the same decorated function
+                        call(0)
 
     try:
         run(prog, "")
-    except Boom:
+    except BOOMS:
         pass
     compare("end")
     ctx.ev()
@@ -183,7 +231,8 @@ def programs(draw, depth=4):
                 out.append(["assign", key, v])
             elif k == "raise":
                 if draw(st.integers(0, 2)) == 0:
-                    out.append(["raise"])
+                    kind = draw(st.sampled_from(["exception", "exception", "base", "generator-exit"]))
+                    out.append(["raise"] if kind == "exception" else ["raise", kind])
             elif k == "try" and d > 0:
                 out.append(["try", body(d, 3)])
             elif k == "with" and d > 0:
@@ -194,7 +243,11 @@ def programs(draw, depth=4):
                     for _ in range(draw(st.integers(1, 2))):
                         kk = draw(st.sampled_from(keys + KEYS[:2]))
                         between.append(["assign", kk, draw(st.sampled_from(VALUES[kk]))])
-                out.append(["with", named, body(d - 1, 3)] + ([between] if between else []))
+                stmt = ["with", named, body(d - 1, 3)] + ([between] if between else [])
+                if draw(st.integers(0, 4)) == 0:
+                    stmt = stmt[:3] + [between, {"how": "decorator", "depth": draw(st.integers(0, 2)),
+                                                 "again": draw(st.booleans())}]
+                out.append(stmt)
         return out
 
     return {"program": body(depth, 4) + [["observe"]], "target": draw(st.sampled_from(["global", "global", "instance"]))}
@@ -205,12 +258,22 @@ def exhaustive(ctx):
     for k1, k2 in itertools.product(KEYS, KEYS):
         v1, v2 = VALUES[k1][1], VALUES[k2][-1]
         for mode in ("normal", "raise-inner", "raise-outer"):
-            inner = [["observe"]] + ([["raise"]] if mode == "raise-inner" else [])
-            outer = [["with", {k2: v2}, inner], ["observe"]] + ([["raise"]] if mode == "raise-outer" else [])
-            progs.append({"program": [["try", [["with", {k1: v1}, outer]]], ["observe"]]})
+            for kind in (("exception",) if mode == "normal" else ("exception", "base", "generator-exit")):
+                inner = [["observe"]] + ([["raise", kind]] if mode == "raise-inner" else [])
+                outer = [["with", {k2: v2}, inner], ["observe"]] + ([["raise", kind]] if mode == "raise-outer" else [])
+                progs.append({"program": [["try", [["with", {k1: v1}, outer]]], ["observe"]]})
+        if k1 == k2:  # one context object used as a decorator and entered again while it is entered
+            for depth in (1, 2):
+                for kind in (None, "exception", "base"):
+                    inner = [["assign", k1, VALUES[k1][2]], ["observe"]] + ([["raise", kind]] if kind else [])
+                    progs.append({"program": [["try", [["with", {k1: v1}, inner, [],
+                                                        {"how": "decorator", "depth": depth, "again": True}]]],
+                                              ["observe"]]})
     ctx.direct("program", check_program, progs)
     ctx.exhaustive_parts.append("all 7x7 pairs of settings in two nested single-setting contexts x {normal exit, "
-                                "exception raised in the inner body, exception raised between the two exits}")
+                                "Exception / BaseException subclass / GeneratorExit raised in the inner body, or between the two "
+                                "exits}; each setting in a context object used as a decorator and re-entered 1 or 2 "
+                                "times while entered x {normal, Exception, BaseException}")
 
 
 def shard(ctx, shard, nshards, ex):
